@@ -290,7 +290,7 @@ def run_property(prop, tier="quick", seed=0, record_expected=False, only=None, j
     else:
         code = EXIT_OK
     if violations:
-        code = EXIT_VIOLATION if not crashes else EXIT_CRASH
+        code = EXIT_VIOLATION
 
     n_ob = len(proved) + len(unknown) + len([1 for r, _, _ in violations]) + len([u for u in undecided if u["status"] == "refuted"])
     wall = time.time() - t0
